@@ -735,6 +735,10 @@ class Lib:
             if h is None:
                 raise E.Unsupported(f"dict.{name}")
             return h(st, recv, node)
+        if isinstance(recv, VRef) and eng.reg.field_shape(recv.cls, name) in (
+                "func", "optfunc"):
+            fv = eng.getattr(st, recv, name, node.lineno)
+            return self.call_value(st, fv, node)
         if isinstance(recv, VRef):
             r = self.ext.call_ref_method(st, recv, name, node)
             if r is not NotImplemented:
@@ -823,8 +827,10 @@ class Lib:
     def callee_signature(self, fc):
         from . import source as S
         eng = self.eng
-        if fc.assumed and getattr(fc, "sig", None):
-            return fc.sig
+        if fc.sig_names is not None:
+            import ast as _a
+            fake = _a.parse("def f(): pass").body[0]
+            return list(fc.sig_names), [], {}, fake
         node, h, _ = S.get_function(eng.repo, fc.module, fc.qualname)
         a = node.args
         names = [p.arg for p in a.posonlyargs + a.args]
@@ -1387,6 +1393,40 @@ class Lib:
         u = eng.coerce(st, eng.eval(st, node.args[0]), "U")
         p = eng.eval(st, node.args[1]).t
         return VInt(st.ghost["YC"][u][p])
+
+    def _frame_vs(self, st, node, snap):
+        """frame_*('Cls.f', r1, r2, ...): heap component Cls.f is unchanged
+        w.r.t. the snapshot except at the listed references."""
+        eng = self.eng
+        key = node.args[0].value
+        refs = [eng.eval(st, a).t for a in node.args[1:]]
+        conj = []
+        r = z3.Const("r!fs", IntS)
+        found = False
+        for k in list(st.heap):
+            if k == key or k.startswith(key + "#"):
+                found = True
+                if snap is None or k not in snap["heap"]:
+                    continue
+                cur, old = st.heap[k], snap["heap"][k]
+                if cur is old or z3.eq(cur, old):
+                    continue
+                conj.append(z3.ForAll([r], z3.Implies(
+                    z3.And([r != x for x in refs] + [r >= 0]),
+                    cur[r] == old[r])))
+        return VBool(z3.And(conj) if conj else z3.BoolVal(True))
+
+    def sp_frame_loop(self, st, node):
+        return self._frame_vs(st, node, st.ghost.get("__loop_entry"))
+
+    def sp_frame_old(self, st, node):
+        return self._frame_vs(st, node, st.old)
+
+    def sp_APPLY(self, st, node):
+        eng = self.eng
+        f = eng.eval(st, node.args[0])
+        x = eng.coerce(st, eng.eval(st, node.args[1]), "U")
+        return VU(APP(f.t, x))
 
     def sp_old_next_ref(self, st, node):
         return VInt(st.old["next_ref"])
